@@ -22,7 +22,8 @@ LEVEL_TEXT = ('Every unit of a run-time derived alphabet (every literal characte
               'pattern in pytrs.parser.rgxlib, plus ~45 short tokens) is pumped in 12 contexts x 7 suffixes with n = 4, 8, 16, ... up to '
               '300 (quick) / 600 (thorough) characters; thorough adds all two-unit alternations; 32 structural families (repeated '
               'Twp/Rge lines, section headers, lots, lists, aliquots, chains; ranges with k-digit end points and repeated maximal ranges, '
-              'whose expansion is large although the text is short) are included. The oracle is a measured resource '
+              'whose expansion is large although the text is short), whitespace runs around every pattern word, and every short token '
+              'sequence in every order (PLSSDesc and Tract) are included. The oracle is a measured resource '
               '(CPU seconds), so this is labelled exploration rather than model checking; the enumeration itself is exhaustive '
               'within the stated family bound.')
 LEVEL_NOTE = ('Trusted: time.process_time() inside the worker and the parent-side kill deadline. Super-linear behaviour that needs '
@@ -206,6 +207,15 @@ def keyword_runs():
     return [r for r in getattr(derive_alphabet, 'runs', []) if r.isalpha() and len(r) >= 3]
 
 
+# short token sequences (every order), joined by ordinary and by unusual whitespace: loops that do not terminate (or blow up) on a
+# particular *order* of components rather than on a long input
+SOUP_WS = [' ', '\n', '\n \n', ' \n ', '\xa0', '\t\t']
+TRACT_TOKENS = ['N/2', 'NE/4', 'E/2', 'W/2', 'S/2', 'SW/4', 'NE', 'Lot 1', 'Lots 1 - 3', 'L2', 'of', 'the', 'ALL', '(40.00)', 'and', ',', ';',
+                'N½', 'SE¼']
+TRACT_CFGS = [None, 'clean_qq', 'break_halves,qq_depth_min.3', 'qq_depth.1', 'suppress_lot_divs,clean_qq,qq_depth_max.2']
+SOUP_DEPTH = {'quick': 3, 'thorough': 4}
+
+
 def worker_init(tier):
     global _p
     _p = import_pytrs()
@@ -230,6 +240,11 @@ def units(tier):
         us.append({'k': 'pump_punct', 'mode': None, 'u': [u]})
     for kw in keyword_runs():
         us.append({'k': 'ws_kw', 'mode': None, 'kw': kw})
+    from .. import soup
+    for i in range(len(soup.V)):
+        us.append({'k': 'soup_ws', 'mode': None, 'first': i})
+    for i in range(len(TRACT_TOKENS)):
+        us.append({'k': 'tract_soup', 'mode': None, 'first': i})
     for mode in MODES[tier]:
         for name in STRUCT_FAMILIES:
             if name in VOLUME_FAMILIES and mode is not None:
@@ -243,25 +258,29 @@ def space(tier):
     return {'bound': f"texts <= {MAXLEN[tier]} characters; {len(all_units())} units ({len(chars)} characters derived from {pats} "
                      f"compiled patterns) x {len(PREFIXES)} prefixes x {len(SUFFIXES)} suffixes x doubling n; "
                      f"plus {len(punct_units())} 'pattern word + punctuation' units in 5 contexts x 3 suffixes; {len(keyword_runs())} pattern words x "
-                     f"{len(WS_UNITS)} whitespace units (runs of 1..30 before / after the word); {len(STRUCT_FAMILIES)} structural "
+                     f"{len(WS_UNITS)} whitespace units (runs of 1..30 before / after the word); every sequence of <= 3 of the 29 vocabulary tokens x "
+                     f"{len(SOUP_WS)} joiners; every sequence of <= {SOUP_DEPTH[tier]} of {len(TRACT_TOKENS)} tract tokens x {len(TRACT_CFGS)} configurations (Tract); {len(STRUCT_FAMILIES)} structural "
                      f"families (repetition, wide and maximal ranges); "
                      f"modes {MODES[tier]}; CPU limit {LIMIT}s",
             'caps_hit': []}
 
 
-def timed(text, mode):
+def timed(text, mode, tract=False):
     t0 = time.process_time()
-    _p.PLSSDesc(text, parse_qq=True, config=mode)
+    if tract:
+        _p.Tract(text, trs='154n97w14', parse_qq=True, config=mode)
+    else:
+        _p.PLSSDesc(text, parse_qq=True, config=mode)
     return time.process_time() - t0
 
 
-def measure(acc, fam, text, mode):
+def measure(acc, fam, text, mode, tract=False):
     """-> seconds (min of up to 3) ; records case and violation"""
-    key = f"{mode}|{text}"
+    key = f"{'tract|' if tract else ''}{mode}|{text}"
     try:
-        dt = timed(text, mode)
+        dt = timed(text, mode, tract)
         if LIMIT < dt < 1.5 * LIMIT:       # borderline: take the minimum of three runs
-            dt = min(dt, timed(text, mode), timed(text, mode))
+            dt = min(dt, timed(text, mode, tract), timed(text, mode, tract))
     except Exception as e:  # noqa  (totality is C03's subject; time still counts)
         dt = -1.0
         acc.extra['exceptions_ignored'] += 1
@@ -273,7 +292,7 @@ def measure(acc, fam, text, mode):
     if len(acc.samples) < 2:
         acc.samples.append({'mode': mode, 'text': text[:120], 'len': len(text), 'cpu_s': round(dt, 4)})
     if dt > LIMIT:
-        acc.violation('too_slow', f"C16:too_slow:{fam}", {'mode': mode, 'text': text}, got=round(dt, 2), exp=f"<= {LIMIT}s",
+        acc.violation('too_slow', f"C16:too_slow:{fam}", {'mode': mode, 'text': text, 'tract': tract}, got=round(dt, 2), exp=f"<= {LIMIT}s",
                       note=f"{len(text)} characters")
     return dt
 
@@ -397,6 +416,22 @@ def run_unit(unit, tier):
                                     dt = measure(acc, fam, text, unit['mode'])
                                     if dt > LIMIT:
                                         break
+    elif unit['k'] == 'soup_ws':
+        from .. import soup
+        import itertools
+        V = soup.V
+        for L in (1, 2, 3):
+            for tail in itertools.product(range(len(V)), repeat=L - 1):
+                toks = [V[unit['first']]] + [V[i] for i in tail]
+                for ws in SOUP_WS:
+                    measure(acc, f"{unit['mode']}|soup_ws|{ws!r}", ws.join(toks), unit['mode'])
+    elif unit['k'] == 'tract_soup':
+        import itertools
+        for L in range(1, SOUP_DEPTH[tier] + 1):
+            for tail in itertools.product(range(len(TRACT_TOKENS)), repeat=L - 1):
+                text = ' '.join([TRACT_TOKENS[unit['first']]] + [TRACT_TOKENS[i] for i in tail])
+                for cfg in TRACT_CFGS:
+                    measure(acc, f"tract|{cfg}", text, cfg, tract=True)
     elif unit['k'] == 'pump2':
         for b in unit['bs']:
             if b == unit['a']:
@@ -420,7 +455,7 @@ def replay(case):
     acc = Acc()
     acc.notes = []
     if 'text' in case:
-        measure(acc, 'replay', case['text'], case.get('mode'))
+        measure(acc, 'replay', case['text'], case.get('mode'), tract=bool(case.get('tract')))
     else:
         # a family that had to be killed: replaying it directly would hang; report it as still violating only if it
         # exceeds the limit under an alarm
